@@ -171,6 +171,9 @@ def run(chk, prog):
         _inside = {id(x) for w_ in _withs for x in _ast.walk(w_)}
         if _binds_outside and all(id(b_) in _inside for b_ in _binds_outside):
             _okctx = True
+    # no equation is skipped: an unhandled equation with unused results may still have EFFECTS (io_callback, writes into a mutable array) that later outputs see
+    _skips = [f"{type(n).__name__.lower()} at line {n.lineno}" for _lp in _loops for n in _ast.walk(_lp) if isinstance(n, (_ast.Continue, _ast.Break))]
+    chk.require(not _skips, "INTERP-SKELETON", _fn.name + "/no-skip", "equations skipped by the interpreter loop", derived=str(_skips) if _skips else "no continue / break in the loop", expected="every equation is dispatched or bound", where=chk.where(_ci.module, _fn))
     chk.require(_okctx, "INTERP-SKELETON", "eval_jaxpr_stateful/bind-context", "configuration context of the re-bound equations", derived="bind / dispatch " + ("inside" if _okctx else "outside") + " `with eqn.ctx.manager`",
                 expected="with eqn.ctx.manager: <dispatch or bind>", where=chk.where(_ci.module, _fn))
     chk.explanation = "loop skeleton of the stateful interpreter by dataflow, writer/reader agreement of initial-style binding, environment read/write rules"
